@@ -324,10 +324,23 @@ def readTables (d : Disk) (name : Nat) (fs : List Int) : Option (List (List (Nat
     | some t => if t.complete then some t.content else none
     | none => none)
 
+/-- the deferred `f.deleteObsoleteFiles()` of backgroundCompactionJob, on the state after the job -/
+def cleanupOps (m : Mem) (d : Disk) (name : Nat) (fid : Int) : List FsOp :=
+  match m.fam? name, m.vs.verOf fid with
+  | some f, some v => famObsoleteOps d name (liveFiles f.pending v)
+  | _, _ => []
+
+/-- table operations `pre`, then family.commitEditLog(logs), then the deferred cleanup -/
+def commitAndClean (m : Mem) (d : Disk) (name : Nat) (fid : Int) (pre : List FsOp) (logs : List Log) (kind : String) :
+    Option (Mem × List FsOp × String) :=
+  match commitEditLog m fid logs with
+  | none => none
+  | some (m1, ops) => some (m1, pre ++ ops ++ cleanupOps m1 (applyFsList d (pre ++ ops)) name fid, kind)
+
 /-- family.backgroundCompactionJob: PickL0Compaction(option.CompactThreshold), compactJob.Run
 (moveCompaction | mergeCompaction), then (deferred) deleteObsoleteFiles. `size` = size of the
 output table if one is written. `none` = bad call; an I/O failure (missing input table) returns the
-state unchanged with the cleanup operations only. -/
+state unchanged with the cleanup operations only ("ioerr"). -/
 def compact (m : Mem) (d : Disk) (name : Nat) (size : Nat) : Option (Mem × List FsOp × String) :=
   match m.fam? name with
   | none => none
@@ -336,38 +349,25 @@ def compact (m : Mem) (d : Disk) (name : Nat) (size : Nat) : Option (Mem × List
     | none => none
     | some v =>
       let l0 := filesAt v 0
-      let cleanup := fun (m' : Mem) (d' : Disk) =>
-        match m'.fam? name, m'.vs.verOf f.opt.id with
-        | some f', some v' => famObsoleteOps d' name (liveFiles f'.pending v')
-        | _, _ => []
-      if (l0.length : Int) < f.opt.threshold then some (m, cleanup m d, "none") else
+      if (l0.length : Int) < f.opt.threshold then commitAndClean m d name f.opt.id [] [] "none" else
       let up := (filesAt v 1).filter (fun e => l0.any (fun lo => overlaps e.2 lo.2.minKey lo.2.maxKey))
-      if l0.length = 1 ∧ up = [] then
+      match l0, up with
+      | [(n, fm)], [] =>
         -- moveCompaction
-        match l0 with
-        | [(n, fm)] =>
-          match commitEditLog m f.opt.id [.deleteFile 0 n, .newFile 1 n fm.minKey fm.maxKey fm.size] with
-          | none => none
-          | some (m1, ops) => some (m1, ops ++ cleanup m1 (applyFsList d ops), "move")
-        | _ => none
-      else
+        commitAndClean m d name f.opt.id [] [.deleteFile 0 n, .newFile 1 n fm.minKey fm.maxKey fm.size] "move"
+      | _, _ =>
         -- mergeCompaction
         match readTables d name (l0.map (·.1) ++ up.map (·.1)) with
-        | none => some (m, cleanup m d, "ioerr")
+        | none => commitAndClean m d name f.opt.id [] [] "ioerr"
         | some cs =>
           let out := mergeContents cs
           let deletes := l0.map (fun e => Log.deleteFile 0 e.1) ++ up.map (fun e => Log.deleteFile 1 e.1)
-          if out = [] then
-            match commitEditLog m f.opt.id deletes with
-            | none => none
-            | some (m1, ops) => some (m1, ops ++ cleanup m1 (applyFsList d ops), "merge")
+          if out = [] then commitAndClean m d name f.opt.id [] deletes "merge"
           else
             let n := m.vs.next
             let m0 := { m with vs := { m.vs with next := n + 1 } }
-            let tops := [FsOp.createTable name n, FsOp.closeTable name n out]
-            match commitEditLog m0 f.opt.id (deletes ++ [.newFile 1 n (minKey out) (maxKey out) size]) with
-            | none => none
-            | some (m1, ops) => some (m1, tops ++ ops ++ cleanup m1 (applyFsList d (tops ++ ops)), "merge")
+            commitAndClean m0 d name f.opt.id [FsOp.createTable name n, FsOp.closeTable name n out]
+              (deletes ++ [.newFile 1 n (minKey out) (maxKey out) size]) "merge"
 
 /-- the rollup-bookkeeping kinds a family commits outside flush/compaction (family_rollup.go) -/
 def Log.isBookkeeping : Log → Bool
